@@ -336,3 +336,55 @@ impl Default for TokenBalance {
 gmsol_utils::fixed_map!(TokenBalances, Pubkey, to_bytes, TokenBalance, MAX_TOKENS, 4);
 
 gmsol_utils::flags!(GtBankFlags, MAX_GT_BANK_FLAGS, u8);
+
+/// Verification-only thin wrappers (no logic of their own) around the `pub(crate)` methods of
+/// [`GtBank`].  Compiled only with `--cfg gmsol_verif`.
+#[cfg(gmsol_verif)]
+pub mod verif_hooks_g1 {
+    use super::*;
+
+    /// Calls `GtBank::try_init`.
+    pub fn try_init(
+        bank: &mut GtBank,
+        bump: u8,
+        treasury_vault_config: Pubkey,
+        gt_exchange_vault: Pubkey,
+    ) -> Result<()> {
+        bank.try_init(bump, treasury_vault_config, gt_exchange_vault)
+    }
+
+    /// Calls `GtBank::record_transferred_in`.
+    pub fn record_transferred_in(bank: &mut GtBank, token: &Pubkey, amount: u64) -> Result<()> {
+        bank.record_transferred_in(token, amount)
+    }
+
+    /// Calls `GtBank::record_transferred_out`.
+    pub fn record_transferred_out(bank: &mut GtBank, token: &Pubkey, amount: u64) -> Result<()> {
+        bank.record_transferred_out(token, amount)
+    }
+
+    /// Calls `GtBank::record_all_transferred_out`.
+    pub fn record_all_transferred_out(bank: &mut GtBank) -> Result<()> {
+        bank.record_all_transferred_out()
+    }
+
+    /// Calls `GtBank::reserve_balances`.
+    pub fn reserve_balances(bank: &mut GtBank, numerator: &u128, denominator: &u128) -> Result<()> {
+        bank.reserve_balances(numerator, denominator)
+    }
+
+    /// Calls `GtBank::confirm_unchecked`.
+    pub fn confirm_unchecked(bank: &mut GtBank, gt_amount: u64) -> Result<()> {
+        bank.confirm_unchecked(gt_amount)
+    }
+
+    /// Calls `GtBank::record_claimed`.
+    pub fn record_claimed(bank: &mut GtBank, gt_amount: u64) -> Result<()> {
+        bank.record_claimed(gt_amount)
+    }
+
+    /// Calls `GtBank::remaining_confirmed_gt_amount`.
+    pub fn remaining_confirmed_gt_amount(bank: &GtBank) -> u64 {
+        bank.remaining_confirmed_gt_amount()
+    }
+}
